@@ -282,7 +282,7 @@ func (ex *Exec) visibleOp(st *State, what string, racy bool) {
 				f.Cur = o.ID
 				f.Preempt++
 				f.SchedTrace = append(f.SchedTrace, fmt.Sprintf("preempt g%d before %s -> g%d", g.ID, what, o.ID))
-				f.Events = append(f.Events, SchedEvent{G: g.ID, Site: ex.curSite, Kind: "preempt", What: what})
+				f.Events = append(f.Events, SchedEvent{G: g.ID, Site: ex.curSite, Kind: "preempt", What: what, Repo: ex.repoSite(st)})
 				ex.push(f)
 				ex.Forks++
 			}
@@ -308,7 +308,7 @@ func (ex *Exec) visibleOp(st *State, what string, racy bool) {
 	st.Spin = 0
 	if st.Sched {
 		st.SchedTrace = append(st.SchedTrace, fmt.Sprintf("g%d %s", g.ID, what))
-		st.Events = append(st.Events, SchedEvent{G: g.ID, Site: ex.curSite, Kind: "op", What: what})
+		st.Events = append(st.Events, SchedEvent{G: g.ID, Site: ex.curSite, Kind: "op", What: what, Repo: ex.repoSite(st)})
 	}
 }
 
@@ -723,4 +723,24 @@ func intersect(a, b []string) []string {
 		}
 	}
 	return out
+}
+
+// repoSite: the position of the innermost frame of the current goroutine that lies inside the repository, when the
+// current site itself does not (used to place replay pause points in instrumentable files).
+func (ex *Exec) repoSite(st *State) string {
+	if ex.RepoPrefix == "" || strings.HasPrefix(ex.curSite, ex.RepoPrefix) {
+		return ""
+	}
+	g := st.g()
+	for i := len(g.Frames) - 1; i >= 0; i-- {
+		fr := g.Frames[i]
+		if fr.Block == nil || fr.IP >= len(fr.Block.Instrs) {
+			continue
+		}
+		s := ex.site(fr.Block.Instrs[fr.IP].Pos())
+		if strings.HasPrefix(s, ex.RepoPrefix) {
+			return s
+		}
+	}
+	return ""
 }
